@@ -6,10 +6,13 @@
     the real printer performed (hook printer.VerifHook) and comparing the events.
     The token-level half of the round trip is C02's completeness (every token rendering of a
     derivation parses to its skeleton).  The rest of the printer (word quoting, separators, layout
-    under the 256 styles) is not modelled: it is decided by the round-trip check on every run. *)
+    under the 256 styles) is not modelled: it is decided by the round-trip check on every run;
+    except the words of literal quotings, whose printed notation is modelled (Lex/Reprint.v) and
+    proved to be scanned back to the same word (last theorem below). *)
 From Coq Require Import List.
 Import ListNotations.
 From GoSh Require Import Print.Heredocs.
+From GoSh Require Import Base.Bytes Base.Utf8 Expand.Expand Lex.Quote Lex.Reprint.
 
 (** For every sequence of printer operations -- any nesting of levels and of multi-line expansions,
     any placement of newlines, expansions printed in the middle of a body -- that runs without fault
@@ -30,3 +33,17 @@ Theorem C05_reader_tracks_printer :
     reader k RNormal (q_of (levels s2) (writing s2)) (ctx_of (saved s2)).
 Proof. exact run_reader. Qed.
 Print Assumptions C05_reader_tracks_printer.
+
+(** Words.  For every text (any Unicode scalar values) that the word scanner accepts as a word of
+    plain characters, single quotes, double quotes with escapes, backslash escapes and line
+    continuations anywhere, followed by any rest: the parts it returns, written in the printer's
+    notation ([print_parts]: a literal as it is, a quotation between its quoting characters, an
+    escaped character after its backslash) and followed by the same rest, are scanned to exactly
+    the same parts with the same rest.  The model of the printer's notation is compared with
+    printer.Fprint on every run (harness handler rword). *)
+Theorem C05_printed_word_is_scanned_back :
+  forall f s w rest, forallb scalar s = true ->
+    scan_word f s [] = Some (w, rest) ->
+    exists F, scan_word F (print_parts w ++ rest) [] = Some (w, rest).
+Proof. exact scan_print_scan. Qed.
+Print Assumptions C05_printed_word_is_scanned_back.
